@@ -21,7 +21,7 @@ def eval_arg(t):
     return DOC.get(t)
 
 def job_seq(item):
-    nops, names, deadline = item
+    nops, names, deadline = item[:3]; first = item[3] if len(item) > 3 else None
     prog = PROG; eng = Engine(prog); eng.deadline = deadline; S = Summary(); XP.init_decls(prog)
     options = [('builtins',)] + [('dereg', n) for n in names] + [('reg', n, fid) for n in names for fid in (0, 1, 2)]
     def body(ex):
@@ -34,7 +34,7 @@ def job_seq(item):
         rt = Cell(ex.call('Runtime::new', []))
         ops = []
         for i in range(nops):
-            op = FJ.choose_from(ex, f'op{i}', options); ops.append(op)
+            op = options[first] if (i == 0 and first is not None) else FJ.choose_from(ex, f'op{i}', options); ops.append(op)
             if op[0] == 'builtins': ex.call('Runtime::register_builtin_functions', [Ptr(rt)])
             elif op[0] == 'dereg': ex.call('Runtime::deregister_function', [Ptr(rt), Ptr(Cell(rstr(op[1])))])
             else:
@@ -140,7 +140,9 @@ def run(run):
     run.native('dev')
     XP.run_translator_validation(run, PROG, every=8 if run.tier == 'quick' else 1)
     quick = run.tier == 'quick'; dl = run.deadline
-    jobs = [(0, NAMES, dl), (1, NAMES, dl), (2, NAMES, dl), (3, ['abs', 'f'], dl)] + ([] if quick else [(3, NAMES, dl), (4, ['abs', 'f'], dl), (5, ['f'], dl)])
+    nopt = lambda names: 1 + len(names) + 3 * len(names)
+    jobs = [(0, NAMES, dl), (1, NAMES, dl)] + [(2, NAMES, dl, k) for k in range(nopt(NAMES))] + [(3, ['abs', 'f'], dl, k) for k in range(nopt(['abs', 'f']))]
+    if not quick: jobs += [(3, NAMES, dl, k) for k in range(nopt(NAMES))] + [(4, ['abs', 'f'], dl, k) for k in range(nopt(['abs', 'f']))] + [(5, ['f'], dl, k) for k in range(nopt(['f']))]
     run.bounds = {'operation sequences': 'every sequence of <= 2 operations over {register(name, f), deregister(name), register_builtin_functions} with names {abs, length, f, g} and three recording custom functions '
                                          '(two bare closures, one CustomFunction with signature [number]); length 3 over names {abs, f}' + ('' if quick else '; length 3 over all names, 4 over {abs, f}, 5 over {f}'),
                   'call expressions': f'name in {{abs, length, f, g}} with {len(ARGSETS)} argument lists (literals, current node, fields, expression references) on the document {json.dumps(DOC)}'}
